@@ -101,6 +101,7 @@ def reader_positions(ctx, repo):
     ctx.call(RX.r_stale_snapshot, repo)
     ctx.call(RX.r_column_per_char, repo)
     ctx.call(RX.r_mark_from_position, repo)
+    ctx.call(R10.r_mark_components_coherent, repo)
     ctx.call(R6B.r_str_input_verbatim, repo)
     ctx.call(R6B.r_window_compacted, repo)
     ctx.call(R6B.r_printable_per_character, repo)
